@@ -20,6 +20,18 @@ CHECKS = {
         technique="TLA+ reference semantics enumerated by TLC (generator spec) + replay into the code + TLC trace validation",
         engine="tlc-gen+trace",
     ),
+    "C11": dict(
+        category="model_checking",
+        text="Pool.tla is model-checked for every interleaving of 4 files on 1..3 workers (worker bound, each file once, delivery "
+        "in input order, termination); its completion orders become delay schedules for real runs whose recorded Begin/End/Merge "
+        "events are validated by Trace_Run (worker bound in every state, merge in input order); runs perturbed in workers, "
+        "schedule, PYTHONHASHSEED (fresh interpreters), creation order and siblings are compared with a reference run.",
+        design_ref="DESIGN.md §5 C11",
+        note="Trusted: TLC, the probes (sequence numbers under one lock, no wall clock), report normalisation (elapsed, directory, "
+        "commandLine dropped). Directory enumeration order is varied only through creation order.",
+        technique="TLC model checking of the pool + trace validation of scheduled real runs + differential runs",
+        engine="tlc-gen+trace",
+    ),
 }
 
 NOT_APPLICABLE: list[dict] = []
